@@ -182,6 +182,8 @@ class Expander:
         if attr in self.opaque_self_attrs or self.ci is None:
             return R.sym(key)
         sites = self.prog.self_assignments(self.ci, attr, methods=set(self.ctor_methods))
+        if sites and not self.prog.attr_is_frozen(self.ci, attr, self.ctor_methods):
+            return R.sym(key)       # reassigned or mutated after construction: stays an opaque atom
         if not sites:
             sites = ctor_setattr_sites(self.prog, self.ci, attr)
         if len(sites) == 1 and self.depth > 0:
@@ -613,7 +615,11 @@ class Expander:
             if isinstance(f.value, ast.Name) and f.value.id == self.selfname and self.ci is not None:
                 c, fn = self.prog.find_method(self.ci, f.attr)
                 if fn is not None:
-                    return self.inline(c.module, self.ci, fn, node, env)
+                    try:
+                        return self.inline(c.module, self.ci, fn, node, env)
+                    except Unsupported:
+                        # a helper outside the modelled subset stays an opaque function of its arguments
+                        return self.opaque_call(f"{self.selfname}.{f.attr}", node, env)
                 # callable slot (user function)
                 return self.opaque_call(f"{self.selfname}.{f.attr}", node, env)
             meth = f.attr
